@@ -49,6 +49,29 @@ int main(int argc, char** argv) {
               for (int h = 0; h < 30; h++) { SimplePolygon hole; for (int i = 0; i < 12; i++) { double a = -2 * M_PI * i / 12; hole.push_back({(h % 6 - 2.5) * 2 + 0.4 * std::cos(a), (h / 6 - 2) * 2 + 0.4 * std::sin(a)}); } ps.push_back(hole); }
               auto tris = Triangulate(ps); ap::Hash h; h.vec(tris); out(prog, "triangulate", h.h, tris.size()); break; }
     case 8: { Manifold a = Manifold::Sphere(1, 256), b = Manifold::Cylinder(3, 0.4, 0.4, 256, true).Rotate(30, 40, 0); Manifold r = (a - b) + b.Scale({0.5, 0.5, 1.2}); outM(prog, "csg", r); outM(prog, "mink", Manifold::Cube({1, 1, 1}).MinkowskiSum(Manifold::Sphere(0.2, 16))); break; }
+    case 9: {  // import of a mesh with >= 2^18 vertices (the bucketed, AtomicAdd-slotted branch of CreateHalfedges) that contains legal
+               // 4-valent edges: pairs of cubes sharing an edge BY INDEX, their triangles spread over the whole triangle list so that the
+               // halfedges of one doubled edge are handled by different chunks of the parallel loops
+      MeshGL64 g = Manifold::Sphere(1, 1024).GetMeshGL64(); g.runIndex.clear(); g.runOriginalID.clear(); g.runTransform.clear(); g.faceID.clear(); g.mergeFromVert.clear(); g.mergeToVert.clear(); g.halfedgeTangent.clear();
+      const size_t nT0 = g.NumTri(); std::vector<std::array<uint64_t, 3>> extra;
+      auto V = [&](double x, double y, double z) { g.vertProperties.insert(g.vertProperties.end(), {x, y, z}); return (uint64_t)(g.vertProperties.size() / 3 - 1); };
+      for (int k = 0; k < 12; k++) {
+        const double ox = 4 + 3.0 * (k % 4), oy = 4 + 3.0 * (k / 4), oz = 0.25 * k;
+        uint64_t id[3][3][2];   // lattice corners x,y in 0..2, z in 0..1 ; the two cubes are [0,1]^2 and [1,2]^2 in xy: they share the edge (1,1,0)-(1,1,1)
+        for (int x = 0; x < 3; x++) for (int y = 0; y < 3; y++) for (int z = 0; z < 2; z++) id[x][y][z] = ((x < 2 && y < 2) || (x > 0 && y > 0)) ? V(ox + x, oy + y, oz + z) : 0;
+        auto cube = [&](int x0, int y0) { auto P = [&](int dx, int dy, int dz) { return id[x0 + dx][y0 + dy][dz]; };
+          const int q[6][4][3] = {{{0,0,0},{0,1,0},{1,1,0},{1,0,0}}, {{0,0,1},{1,0,1},{1,1,1},{0,1,1}}, {{0,0,0},{1,0,0},{1,0,1},{0,0,1}}, {{0,1,0},{0,1,1},{1,1,1},{1,1,0}}, {{0,0,0},{0,0,1},{0,1,1},{0,1,0}}, {{1,0,0},{1,1,0},{1,1,1},{1,0,1}}};
+          for (auto& f : q) { uint64_t a = P(f[0][0], f[0][1], f[0][2]), b = P(f[1][0], f[1][1], f[1][2]), c = P(f[2][0], f[2][1], f[2][2]), d = P(f[3][0], f[3][1], f[3][2]); extra.push_back({a, b, c}); extra.push_back({a, c, d}); } };
+        cube(0, 0); cube(1, 1);
+      }
+      // spread the extra triangles evenly through the list (deterministic)
+      std::vector<uint64_t> tv; tv.reserve(g.triVerts.size() + 3 * extra.size()); const size_t stride = nT0 / (extra.size() + 1); size_t e = 0;
+      for (size_t t = 0; t < nT0; t++) { if (e < extra.size() && t == (e + 1) * stride) { for (auto x : extra[e]) tv.push_back(x); e++; } for (int i = 0; i < 3; i++) tv.push_back(g.triVerts[3 * t + i]); }
+      for (; e < extra.size(); e++) for (auto x : extra[e]) tv.push_back(x);
+      g.triVerts = tv;
+      Manifold m(g); out(prog, "bigimport-status", (uint64_t)(int)m.Status(), m.NumVert()); outM(prog, "bigimport", m);
+      auto comps = m.Decompose(); out(prog, "bigimport-ncomp", comps.size(), comps.size());
+      break; }
     default: {  // seeded API program with larger primitives
       hz::Rng r(1000 + prog); ap::Gen gen(r, prog % 2 == 0); std::vector<Manifold> pool; ap::Limits lim; lim.maxTri = 40000;
       for (int i = 0; i < 25; i++) { gen.nobj = (int)pool.size(); ap::Step s = gen.next(); if (s.op == "sphere") s.arg[1] = 128; if (s.op == "refine") s.arg[0] += 6; size_t b = pool.size(); ap::exec(s, pool, lim); for (size_t k = b; k < pool.size(); k++) outM(prog, s.op.c_str(), pool[k]); }
